@@ -87,15 +87,19 @@ var shortOps map[string]byte
 func parseShortForm(script string) ([]byte, error) {
 	if shortOps == nil {
 		shortOps = map[string]byte{}
-		for name, val := range txscript.OpcodeByName {
-			if strings.Contains(name, "OP_UNKNOWN") {
+		for i, name := range coreOpNames {
+			if name == "" {
 				continue
 			}
-			shortOps[name] = val
-			if name == "OP_FALSE" || name == "OP_TRUE" || (val != 0 && (val < 0x51 || val > 0x60)) {
-				shortOps[strings.TrimPrefix(name, "OP_")] = val
+			val := byte(0x4c + i)
+			shortOps["OP_"+name] = val
+			if val < 0x51 || val > 0x60 {
+				shortOps[name] = val
 			}
 		}
+		shortOps["OP_0"], shortOps["OP_FALSE"], shortOps["FALSE"] = 0, 0, 0
+		shortOps["OP_TRUE"], shortOps["TRUE"] = 0x51, 0x51
+		shortOps["OP_NOP2"], shortOps["NOP2"], shortOps["OP_NOP3"], shortOps["NOP3"] = 0xb1, 0xb1, 0xb2, 0xb2
 	}
 	script = strings.NewReplacer("\n", " ", "\t", " ").Replace(script)
 	var out []byte
@@ -528,3 +532,13 @@ func reachableFlags(fl txscript.ScriptFlags) bool {
 }
 
 var _ = binary.LittleEndian
+
+// coreOpNames: Bitcoin Core's opcode names (script.cpp GetOpName) from OP_PUSHDATA1 (0x4c) upwards; the vectors'
+// short form is Core's, so the table is the harness's own and not read from btcd.
+var coreOpNames = strings.Fields(`PUSHDATA1 PUSHDATA2 PUSHDATA4 1NEGATE RESERVED 1 2 3 4 5 6 7 8 9 10 11 12 13 14 15 16
+NOP VER IF NOTIF VERIF VERNOTIF ELSE ENDIF VERIFY RETURN TOALTSTACK FROMALTSTACK 2DROP 2DUP 3DUP 2OVER 2ROT 2SWAP
+IFDUP DEPTH DROP DUP NIP OVER PICK ROLL ROT SWAP TUCK CAT SUBSTR LEFT RIGHT SIZE INVERT AND OR XOR EQUAL EQUALVERIFY
+RESERVED1 RESERVED2 1ADD 1SUB 2MUL 2DIV NEGATE ABS NOT 0NOTEQUAL ADD SUB MUL DIV MOD LSHIFT RSHIFT BOOLAND BOOLOR
+NUMEQUAL NUMEQUALVERIFY NUMNOTEQUAL LESSTHAN GREATERTHAN LESSTHANOREQUAL GREATERTHANOREQUAL MIN MAX WITHIN RIPEMD160
+SHA1 SHA256 HASH160 HASH256 CODESEPARATOR CHECKSIG CHECKSIGVERIFY CHECKMULTISIG CHECKMULTISIGVERIFY NOP1
+CHECKLOCKTIMEVERIFY CHECKSEQUENCEVERIFY NOP4 NOP5 NOP6 NOP7 NOP8 NOP9 NOP10 CHECKSIGADD`)
